@@ -215,6 +215,10 @@ _reg_unary("real", lambda a: a.dtype.kind == "c", weight=1)
 _reg_unary("imag", lambda a: a.dtype.kind == "c", weight=1)
 _reg_unary("conj", lambda a: a.dtype.kind == "c", weight=1)
 
+for _n in ("sin", "cos", "tanh", "expm1", "atan", "sinh", "log1p"):
+    _reg_unary(_n, (lambda a: _isfloat(a) and (a.size == 0 or (np.nanmin(a) > -0.9))) if _n == "log1p" else _isfloat,
+               exact=False, weight=1)
+
 reg("astype", 1,
     lambda tp, a: dict(dtype=tp.choice(["int64", "float64", "int32", "float32", "bool", "uint8"]))
     if a.dtype.kind != "c" and not (a.dtype.kind == "f" and np.isnan(a).any()) else None,
@@ -275,6 +279,28 @@ _reg_binary("divide", lambda a, b: _isfloat(a) and _isfloat(b) and (b.size == 0 
             exact=False, weight=2)
 _reg_binary("remainder", lambda a, b: _isint(a) and _isint(b) and (b.size == 0 or not (b == 0).any()), weight=1)
 _reg_binary("floor_divide", lambda a, b: _isint(a) and _isint(b) and (b.size == 0 or not (b == 0).any()), weight=1)
+
+_f2 = lambda a, b: _isfloat(a) and _isfloat(b)  # noqa: E731
+_reg_binary("atan2", _f2, exact=False, weight=1, np_name="arctan2")
+_reg_binary("hypot", _f2, exact=False, weight=1)
+_reg_binary("logaddexp", _f2, exact=False, weight=1)
+_reg_binary("copysign", _f2, weight=1)
+
+reg("isin", 2, lambda tp, a, b: {} if _isint(a) and _isint(b) and a.dtype == b.dtype and b.size > 0 else None,
+    lambda a, b, p: np.isin(a, b), lambda a, b, p: _xp().isin(a, b), weight=1, tags=("elemwise",))
+
+
+def _gu_add(x, y):
+    return x + y
+
+
+reg("apply_gufunc", 2, lambda tp, a, b: {} if _num2(a, b) and a.dtype == b.dtype and a.shape == b.shape and a.dtype.kind != "u" else None,
+    lambda a, b, p: a + b,
+    lambda a, b, p: _cubed().apply_gufunc(_gu_add, "(),()->()", a, b, output_dtypes=a.dtype), weight=2, tags=("elemwise",))
+
+reg("meshgrid", 2, lambda tp, a, b: dict(indexing=tp.choice(["xy", "ij"])) if a.ndim == 1 and b.ndim == 1 and a.dtype == b.dtype and a.size and b.size else None,
+    lambda a, b, p: list(np.meshgrid(a, b, indexing=p["indexing"])),
+    lambda a, b, p: list(_xp().meshgrid(a, b, indexing=p["indexing"])), nout=2, weight=1, tags=("manip", "multi"))
 
 # python scalar operand (exercises _promote_scalar)
 reg("scalar_op", 1,
@@ -544,6 +570,18 @@ def _gen_unstack(tp, a):
     return dict(axis=ax)
 
 
+def _gen_unstack3(tp, a):
+    if a.ndim == 0:
+        return None
+    ax = tp.randint(0, a.ndim - 1)
+    if a.shape[ax] != 3:
+        return None
+    return dict(axis=ax)
+
+
+reg("unstack3", 1, _gen_unstack3, lambda a, p: [np.take(a, i, axis=p["axis"]) for i in range(3)],
+    lambda a, p: list(_xp().unstack(a, axis=p["axis"])), nout=3, weight=3, tags=("manip", "multi"))
+
 reg("unstack2", 1, _gen_unstack, lambda a, p: [np.take(a, i, axis=p["axis"]) for i in range(2)],
     lambda a, p: list(_xp().unstack(a, axis=p["axis"])), nout=2, weight=6, tags=("manip", "multi"))
 
@@ -731,9 +769,9 @@ reg("diff", 1, lambda tp, a: dict(axis=tp.choice(list(range(a.ndim)) + [-1]), n=
 def _gen_nanred(tp, a):
     if a.dtype.kind != "f":
         return None
-    fn = tp.choice(["nansum", "nanmax", "nanmin", "nanmean", "nanprod"])
+    fn = tp.choice(["nansum", "nanmax", "nanmin", "nanmean", "nanprod", "nanstd", "nanvar"])
     p = dict(axis=_axes(tp, a.ndim), keepdims=tp.coin(1, 3), fn=fn)
-    if fn in ("nanmax", "nanmin"):
+    if fn in ("nanmax", "nanmin", "nanstd", "nanvar"):
         if not _nonempty_axes(a, p):
             return None
     return p
@@ -1090,7 +1128,7 @@ reg("create", 0, lambda tp: _gen_creation(tp), lambda p: _np_creation(p), None, 
 INEXACT_CREATE = {"linspace", "random"}
 NO_DIRECT_ORACLE = {"qr", "svd"}  # factors are unique only up to signs
 # discontinuous functions amplify legitimate rounding differences: only applied to exact values
-DISCONTINUOUS = {"floor", "ceil", "trunc", "sign", "equal", "not_equal", "less", "greater_equal", "astype",
+DISCONTINUOUS = {"isin", "copysign", "floor", "ceil", "trunc", "sign", "equal", "not_equal", "less", "greater_equal", "astype",
                  "argred", "where", "searchsorted", "count_nonzero", "any", "all", "scalar_op", "isnan", "isfinite",
                  "logical_not", "logical_and", "logical_or", "logical_xor", "remainder", "floor_divide", "groupby",
                  }
